@@ -17,6 +17,7 @@ package verifharness
 //   reg <addrOK> <addr> <nc> <chain>*nc <na> <oaddr>*na      -> ok G:<registry in store order> | rej
 //   regdry <drop|fail|gov> <addrOK> <addr> <nc> <chain>*nc <na> <oaddr>*na   registration on a DISCARDED context branch
 //                                                            -> dry ok|rej G:<registry in the store, unchanged>
+//   restart <module|app>                                     genesis export -> import in the middle of the history -> ok
 //   q <chain> <addr> <oaddr>                                 -> auth=<0|1> other=<f:hex|none> tele=<f:hex|none>
 //   upd <raw> <canon> <chain> <hdrOK> <newTss|none>          -> ok <store diff> | rej
 //   recv <raw> <canon> <src> <dst> <seq> <kind> <proofOK> <cb> -> ok <store diff> rl=<ack relayer field> cls=<ok|code|evm|nodst> | rej
@@ -88,6 +89,14 @@ type c06Reg struct {
 	chains, addrs []string
 }
 
+// a counterparty chain T holds a real Tendermint light client of, with genuine ICS-23 proofs of its pool
+type c06Src struct {
+	chain    *xibctesting.TestChain
+	proofPkt map[uint64][]byte // X->T packet commitment proofs
+	proofAck map[uint64][]byte // T->X ack proofs
+	proofH   clienttypes.Height
+}
+
 type c06Dry struct {
 	addr string
 	reg  c06Reg
@@ -98,14 +107,13 @@ type c06World struct {
 	coord *xibctesting.Coordinator
 	T, S  *xibctesting.TestChain
 	// mirrors used by the ORACLE only (what governance registered / configured last)
-	lastReg map[string]c06Reg
-	dryRegs []c06Dry          // registrations that ran on DISCARDED context branches (for the distribution only; never in lastReg)
-	tssCfg  map[string]string // chain -> TSS address as configured (mkclient) / rotated (accepted TSS update)
-	hist    []string
+	lastReg  map[string]c06Reg
+	restarts int
+	dryRegs  []c06Dry          // registrations that ran on DISCARDED context branches (for the distribution only; never in lastReg)
+	tssCfg   map[string]string // chain -> TSS address as configured (mkclient) / rotated (accepted TSS update)
+	hist     []string
 	// proofs of the canonical pool
-	proofPkt map[uint64][]byte // S->T packet commitment proofs
-	proofAck map[uint64][]byte // T->S ack proofs
-	proofH   clienttypes.Height
+	srcs map[string]*c06Src // the Tendermint-secured counterparties (S and S2): real chains with committed pools
 }
 
 // ---- canonical packets / acks --------------------------------------------------------------------
@@ -188,28 +196,32 @@ func c06AckDecodes(bz []byte) bool {
 // ---- world -----------------------------------------------------------------------------------------
 
 func newC06World(t *testing.T) *c06World {
-	w := &c06World{t: t, lastReg: map[string]c06Reg{}, tssCfg: map[string]string{}, proofPkt: map[uint64][]byte{}, proofAck: map[uint64][]byte{}}
-	w.coord = xibctesting.NewCoordinator(t, 2)
+	w := &c06World{t: t, lastReg: map[string]c06Reg{}, tssCfg: map[string]string{}, srcs: map[string]*c06Src{}}
+	w.coord = xibctesting.NewCoordinator(t, 3)
 	w.T = w.coord.GetChain(xibctesting.GetChainID(0))
 	w.S = w.coord.GetChain(xibctesting.GetChainID(1))
-	// S commits the pool: packets S->T and acks of packets T->S
-	sctx := w.S.GetContext()
-	for seq := uint64(1); seq <= c06Pool; seq++ {
-		cm, err := packettypes.CommitPacket(c06Packet(w.S.ChainID, w.T.ChainID, seq, c06PoolKind(seq)))
-		if err != nil {
-			t.Fatal(err)
+	for _, X := range []*xibctesting.TestChain{w.S, w.coord.GetChain(xibctesting.GetChainID(2))} {
+		// X commits its pool: packets X->T and acks of packets T->X
+		sctx := X.GetContext()
+		for seq := uint64(1); seq <= c06Pool; seq++ {
+			cm, err := packettypes.CommitPacket(c06Packet(X.ChainID, w.T.ChainID, seq, c06PoolKind(seq)))
+			if err != nil {
+				t.Fatal(err)
+			}
+			X.App.XIBCKeeper.PacketKeeper.SetPacketCommitment(sctx, X.ChainID, w.T.ChainID, seq, cm)
+			X.App.XIBCKeeper.PacketKeeper.SetPacketAcknowledgement(sctx, w.T.ChainID, X.ChainID, seq,
+				packettypes.CommitAcknowledgement(c06AckBytes(seq, c06PoolAckRelayer(seq), true)))
 		}
-		w.S.App.XIBCKeeper.PacketKeeper.SetPacketCommitment(sctx, w.S.ChainID, w.T.ChainID, seq, cm)
-		w.S.App.XIBCKeeper.PacketKeeper.SetPacketAcknowledgement(sctx, w.T.ChainID, w.S.ChainID, seq,
-			packettypes.CommitAcknowledgement(c06AckBytes(seq, c06PoolAckRelayer(seq), true)))
-	}
-	w.coord.CommitBlock(w.S)
-	path := xibctesting.NewPath(w.T, w.S)
-	w.coord.SetupClientsWithoutRelayer(path)
-	h := w.T.GetClientState(w.S.ChainID).GetLatestHeight().GetRevisionHeight()
-	for seq := uint64(1); seq <= c06Pool; seq++ {
-		w.proofPkt[seq], w.proofH = w.S.QueryProofAtHeight(host.PacketCommitmentKey(w.S.ChainID, w.T.ChainID, seq), int64(h))
-		w.proofAck[seq], _ = w.S.QueryProofAtHeight(host.PacketAcknowledgementKey(w.T.ChainID, w.S.ChainID, seq), int64(h))
+		w.coord.CommitBlock(X)
+		path := xibctesting.NewPath(w.T, X)
+		w.coord.SetupClientsWithoutRelayer(path)
+		src := &c06Src{chain: X, proofPkt: map[uint64][]byte{}, proofAck: map[uint64][]byte{}}
+		h := w.T.GetClientState(X.ChainID).GetLatestHeight().GetRevisionHeight()
+		for seq := uint64(1); seq <= c06Pool; seq++ {
+			src.proofPkt[seq], src.proofH = X.QueryProofAtHeight(host.PacketCommitmentKey(X.ChainID, w.T.ChainID, seq), int64(h))
+			src.proofAck[seq], _ = X.QueryProofAtHeight(host.PacketAcknowledgementKey(w.T.ChainID, X.ChainID, seq), int64(h))
+		}
+		w.srcs[X.ChainID] = src
 	}
 	ctx := w.T.GetContext()
 	for _, a := range c06Accts {
@@ -475,12 +487,16 @@ func (w *c06World) probeHeader(chain string, header exported.Header) bool {
 }
 
 // buildHeader: newTss = "none" → a Tendermint header of S (valid if wantOK, tampered otherwise); else a TSS header.
-func (w *c06World) buildHeader(wantOK bool, newTss string) exported.Header {
+func (w *c06World) buildHeader(chain string, wantOK bool, newTss string) exported.Header {
 	if newTss != "none" {
 		return &tsstypes.Header{TssAddress: newTss}
 	}
-	w.coord.CommitBlock(w.S)
-	h, err := w.T.ConstructUpdateTMClientHeader(w.S, w.S.ChainID)
+	X := w.S // a Tendermint header of S for every chain that is not itself a Tendermint counterparty
+	if src, ok := w.srcs[chain]; ok {
+		X = src.chain
+	}
+	w.coord.CommitBlock(X)
+	h, err := w.T.ConstructUpdateTMClientHeader(X, X.ChainID)
 	if err != nil {
 		w.t.Fatalf("construct header: %v", err)
 	}
@@ -504,8 +520,8 @@ func (w *c06World) apply(r *Rec, op string) (string, string) {
 			if f[5] != "none" {
 				nt = string(unhx(f[5]))
 			}
-			if nt != "none" || chain == w.S.ChainID {
-				if w.probeHeader(chain, w.buildHeader(true, nt)) {
+			if _, isTM := w.srcs[chain]; nt != "none" || isTM {
+				if w.probeHeader(chain, w.buildHeader(chain, true, nt)) {
 					f[4] = "1"
 				}
 			}
@@ -575,7 +591,7 @@ func (w *c06World) apply1(r *Rec, f []string) string {
 			w.coord.CommitBlock(T)
 			return "ok"
 		}
-		if s(1) != w.S.ChainID {
+		if _, isTM := w.srcs[s(1)]; !isTM {
 			return "bad-op"
 		}
 		return "ok"
@@ -631,6 +647,8 @@ func (w *c06World) apply1(r *Rec, f []string) string {
 		return "ok G:" + w.regDump()
 	case "regdry":
 		return w.applyRegDry(r, f)
+	case "restart":
+		return w.applyRestart(r, f)
 	case "q":
 		var auth bool
 		var other, tele string
@@ -817,7 +835,7 @@ func (w *c06World) applyMsg(r *Rec, f []string) string {
 	switch kind {
 	case "upd":
 		chain = s(3)
-		hdr := w.buildHeader(f[4] == "1", func() string {
+		hdr := w.buildHeader(chain, f[4] == "1", func() string {
 			if f[5] == "none" {
 				return "none"
 			}
@@ -856,9 +874,9 @@ func (w *c06World) applyMsg(r *Rec, f []string) string {
 			proof = pf
 		}
 		ph := clienttypes.NewHeight(0, 1)
-		if src == w.S.ChainID {
-			ph = w.proofH
-			gen, have := w.proofPkt[seq]
+		if sx, isTM := w.srcs[src]; isTM {
+			ph = sx.proofH
+			gen, have := sx.proofPkt[seq]
 			if f[7] == "1" {
 				if !have || dst != T.ChainID || dk != c06PoolKind(seq) {
 					return "flag-mismatch proofOK"
@@ -866,8 +884,13 @@ func (w *c06World) applyMsg(r *Rec, f []string) string {
 				proof = gen
 			} else if have {
 				switch seq % 3 {
-				case 0: // proof of another sequence
-					proof = w.proofPkt[seq%c06Pool+1]
+				case 0: // proof of another sequence — or the genuine proof of the OTHER Tendermint counterparty
+					proof = sx.proofPkt[seq%c06Pool+1]
+					for name, o := range w.srcs {
+						if name != src && seq%2 == 0 {
+							proof = o.proofPkt[seq]
+						}
+					}
 				case 1: // corrupted proof
 					proof = append([]byte{}, gen...)
 					proof[len(proof)/2] ^= 0x40
@@ -904,9 +927,9 @@ func (w *c06World) applyMsg(r *Rec, f []string) string {
 			proof = pf
 		}
 		ph := clienttypes.NewHeight(0, 1)
-		if dst == w.S.ChainID {
-			ph = w.proofH
-			gen, have := w.proofAck[seq]
+		if sx, isTM := w.srcs[dst]; isTM {
+			ph = sx.proofH
+			gen, have := sx.proofAck[seq]
 			genuineAck := have && src == T.ChainID && bytes.Equal(ackBz, c06AckBytes(seq, c06PoolAckRelayer(seq), true))
 			if f[8] == "1" {
 				if !genuineAck {
@@ -948,6 +971,20 @@ func (w *c06World) applyMsg(r *Rec, f []string) string {
 	tag := kind + "."
 	lr, registered := w.lastReg[raw]
 	regForChain := registered && c06Contains(lr.chains, chain)
+	if _, isTM := w.srcs[chain]; isTM && kind != "ack" && !regForChain {
+		for other := range w.srcs {
+			if other != chain && c06Contains(lr.chains, other) {
+				// registered for the OTHER Tendermint counterparty only: second instance of the same kind
+				r.Count("msg.other-tendermint-counterparty.attempted")
+			}
+		}
+	}
+	if w.restarts > 0 {
+		r.Count("msg.after-restart.attempted")
+		if kind != "ack" && registered && !regForChain {
+			r.Count("msg.after-restart.registered-for-other-chains-only")
+		}
+	}
 	if kind != "ack" && !regForChain && w.dryNamed(raw, chain) {
 		// only a DISCARDED registration names this signer for this chain: it confers nothing
 		r.Count("msg.after-discarded-registration.attempted")
@@ -999,6 +1036,12 @@ func (w *c06World) applyMsg(r *Rec, f []string) string {
 			from = "registered-relayer"
 		}
 		r.Count("tss." + kind + ".proof-" + pk + ".from-" + from)
+		if hasPf {
+			switch n := len(pf); n {
+			case 0, 1, 20, 32, 64, 1 << 16:
+				r.Count(fmt.Sprintf("tss.msg.proof-len.%d", n))
+			}
+		}
 		if pk == "is-tss-address" && from != "tss-account" {
 			r.Count("tss.msg.proof-is-tss-address.from-other-account")
 			r.Count("tss." + kind + ".proof-is-tss-address.from-other-account")
@@ -1025,6 +1068,12 @@ func (w *c06World) applyMsg(r *Rec, f []string) string {
 		return "rej"
 	}
 	r.Count(tag + "accepted")
+	if _, isTM := w.srcs[chain]; isTM {
+		r.Count(tag + "accepted.tendermint." + map[bool]string{true: "first", false: "second"}[chain == w.S.ChainID])
+	}
+	if w.restarts > 0 {
+		r.Count(tag + "accepted.after-restart")
+	}
 	if isTss {
 		r.Count(tag + "accepted.tss")
 	}
